@@ -1,8 +1,8 @@
 INIT Init
 NEXT Next
 CONSTANTS
-  Part = "err"
-  L = 6
+  Part = "rnd"
+  L = 3
   Cut = 6
   Stride = 1
 INVARIANT LawOutDomain
